@@ -66,6 +66,9 @@ func (b *Build) RunSegment(seg *Segment, o RunOpts) *RunOut {
 		"GORACE=halt_on_error=0 exitcode=0 log_path="+filepath.Join(dir, "race"),
 		"GOTRACEBACK=all",
 	)
+	if o.GOMAXPROCS == 0 && seg.Procs > 0 {
+		o.GOMAXPROCS = seg.Procs
+	}
 	if o.GOMAXPROCS > 0 {
 		env = append(env, fmt.Sprintf("GOMAXPROCS=%d", o.GOMAXPROCS))
 	} else {
